@@ -123,7 +123,7 @@ def _pod_from_match(pod: str, m: RegexMatch) -> str:
 
 
 @rule(
-    r"(?P<mod_very>(sehr|very)\s+)?"
+    r"\b(?P<mod_very>(sehr|very)\s+)?"
     "((?P<mod_early>früh(e(r|n|m))?|early)"
     "|(?P<mod_late>(spät(e(r|n|m))?|late)))",
     predicate("isPOD"),
@@ -184,7 +184,7 @@ def ruleMonthOrdinal(ts: datetime, m: RegexMatch) -> Time:
     return Time(month=int(m.match.group("month")))
 
 
-@rule(r"(?<!\d|\.)(?P<day>(?&_day))\s*(?:s?ten|st|nd|rd|th|ter)")
+@rule(r"(?<!\d|\.)(?P<day>(?&_day))\s*(?:s?ten|st|nd|rd|th|ter)\b")
 # a "[0-31]" followed by a th/st
 def ruleDOM2(ts: datetime, m: RegexMatch) -> Time:
     return Time(day=int(m.match.group("day")))
@@ -226,8 +226,8 @@ def ruleToday(ts: datetime, _: RegexMatch) -> Time:
 
 
 @rule(
-    r"(genau\s*)?jetzt|diesen moment|in diesem moment|gerade eben|"
-    r"((just|right)\s*)?now|immediately"
+    r"\b((genau\s*)?jetzt|diesen moment|in diesem moment|gerade eben|"
+    r"((just|right)\s*)?now|immediately)"
 )
 def ruleNow(ts: datetime, _: RegexMatch) -> Time:
     return Time(
@@ -501,7 +501,7 @@ def _maybe_apply_am_pm(t: Time, ampm_match: str) -> Time:
     # match hhmm
     r"(?<!\d|\.)(?P<hour>(?:[01]\d)|(?:2[0-3]))(?P<minute>(?&_minute))"
     r"\s*(?P<clock>(?:uhr|h)\b)?"  # optional uhr
-    r"\s*(?P<ampm>\s*[ap]\.?m\.?)?(?!\d)"  # optional am/pm
+    r"\s*(?P<ampm>\s*[ap]\.?m\b\.?)?(?!\d)"  # optional am/pm
 )
 def ruleHHMMmilitary(ts: datetime, m: RegexMatch) -> Optional[Time]:
     t = Time(hour=int(m.match.group("hour")), minute=int(m.match.group("minute") or 0))
@@ -516,7 +516,7 @@ def ruleHHMMmilitary(ts: datetime, m: RegexMatch) -> Optional[Time]:
     # We try to match also the minute
     r"((?P<sep>:|uhr|h|\.)(?P<minute>(?&_minute)))?"
     r"\s*(?P<clock>(?:uhr|h)\b)?"  # We match uhr with no minute
-    r"(?P<ampm>\s*[ap]\.?m\.?)?"  # AM PM
+    r"(?P<ampm>\s*[ap]\.?m\b\.?)?"  # AM PM
     r"(?!\d)"
 )
 def ruleHHMM(ts: datetime, m: RegexMatch) -> Time:
@@ -532,7 +532,7 @@ def ruleHHOClock(ts: datetime, m: RegexMatch) -> Time:
     return Time(hour=int(m.match.group("hour")))
 
 
-@rule(r"(a |one )?quarter( to| till| before| of)|vie?rtel vor", predicate("isTOD"))
+@rule(r"\b((a |one )?quarter( to| till| before| of)|vie?rtel vor)\b", predicate("isTOD"))
 def ruleQuarterBeforeHH(ts: datetime, _: RegexMatch, t: Time) -> Optional[Time]:
     # no quarter past hh:mm where mm is not 0 or missing
     if t.minute:
@@ -543,7 +543,7 @@ def ruleQuarterBeforeHH(ts: datetime, _: RegexMatch, t: Time) -> Optional[Time]:
         return Time(hour=23, minute=45)
 
 
-@rule(r"((a |one )?quarter( after| past)|vie?rtel nach)", predicate("isTOD"))
+@rule(r"\b((a |one )?quarter( after| past)|vie?rtel nach)\b", predicate("isTOD"))
 def ruleQuarterAfterHH(ts: datetime, _: RegexMatch, t: Time) -> Optional[Time]:
     if t.minute:
         return None
@@ -618,7 +618,7 @@ def rulePODDate(ts: datetime, pod: Time, d: Time) -> Time:
 
 
 @rule(
-    r"((?P<not>not |nicht )?(vor(?!mittag)|before))|(bis )?spätestens( bis)?|bis|latest|"
+    r"\b((?P<not>not |nicht )?(vor(?!mittag)|before))|(bis )?spätestens( bis)?|bis|latest|"
     r"\b(until|till?)\b",
     dimension(Time),
 )
@@ -630,7 +630,7 @@ def ruleBeforeTime(ts: datetime, r: RegexMatch, t: Time) -> Interval:
 
 
 @rule(
-    r"((?P<not>not |nicht )?(nach|after))|(ab )?frühe?stens( ab)?|ab|"
+    r"\b((?P<not>not |nicht )?(nach|after))|(ab )?frühe?stens( ab)?|ab|"
     "(from )?earliest( after)?|from",
     dimension(Time),
 )
@@ -870,7 +870,7 @@ _named_number = (
 _rule_named_number = "|".join(
     r"(?P<n_{}>(?:{})\b)".format(n, expr) for n, expr in _named_number
 )
-_rule_named_number = r"({})\s*".format(_rule_named_number)
+_rule_named_number = r"\b({})\s*".format(_rule_named_number)
 
 _durations = [
     (DurationUnit.NIGHTS, r"n[aä]chte?|nights?|[üu]bernachtung"),
